@@ -1,6 +1,8 @@
 package c18
 
 import (
+	"strings"
+	"sort"
 	"encoding/json"
 	"fmt"
 	"os"
@@ -941,6 +943,22 @@ func TestBigIntComparisonsV2(t *testing.T) {
 		}
 	}
 	evid.Exhaustive("integer pair (neighbours beyond 2^53 and at the int64 limits) x comparison operator", n)
+}
+
+// TestEvaluationOrderOfComposites: sgen.OrderCases - every composite form with a probed operand in every child position,
+// alone and next to a failing sibling - under the v2 interpreter: children are evaluated in text order, each once, and a
+// failure ends the statement with exactly the earlier siblings evaluated.
+func TestEvaluationOrderOfComposites(t *testing.T) {
+	cases := sgen.OrderCases()
+	var names []string
+	for k := range cases {
+		names = append(names, k)
+	}
+	sort.Strings(names)
+	for _, name := range names {
+		judge(t, "order", sem.NewCase(gen.FixAll(gen.CloneProg(cases[name]))), "order/"+name, true, "evaluation-order/"+strings.SplitN(name, "/", 2)[0])
+	}
+	evid.Exhaustive("composite form x probed child positions x failing sibling (v2)", len(names))
 }
 
 func TestFixedDialect(t *testing.T) {
